@@ -9,7 +9,7 @@
 (***************************************************************************)
 EXTENDS SlimJudge
 
-VARIABLE inst
+VARIABLES inst, iters
 
 NoInst == [live |-> FALSE]
 
@@ -39,4 +39,31 @@ LoadOwn == inst.live /\ inst' = [inst EXCEPT !.loaded = TRUE]
 
 \* read-only calls
 Read == UNCHANGED inst
+
+\* ---- scans (C04) -------------------------------------------------------------
+\* the scan APIs require complete keys; otherwise they refuse (panic) -- unless
+\* the trie is empty, where there is nothing to refuse
+Refuses(c) == Len(c.ks) > 0 /\ ~StoresCompleteKeys(c.o)
+
+\* what a whole scan call delivers to its callback: positions in c.R
+ScanDelivers(c, start, incl, hasEnd, end, inclEnd, stop) ==
+  LET all == RefScanPos(c.ks, c.R, start, incl, hasEnd, end, inclEnd)
+  IN IF stop >= 0 /\ stop < Len(all) THEN SubSeq(all, 1, stop) ELSE all
+
+ScanVal(c, withvalue, p) == IF withvalue THEN VR(c, p) ELSE NilV
+
+\* iterators: iters[id] = [rest, wv]: the positions (in inst.R) still to be
+\* yielded.  Each iterator owns its cursor; reads of the trie do not touch it.
+NoIters == <<>>
+HasIter(id) == id \in DOMAIN iters
+IterNew(id, start, incl, wv) ==
+  /\ inst.live /\ ~Refuses(inst)
+  /\ iters' = (id :> [rest |-> RefScanPos(inst.ks, inst.R, start, incl, FALSE, <<>>, FALSE), wv |-> wv]) @@ iters
+\* yields <<key, value>>; <<NilV, NilV>> once exhausted, forever
+IterYield(id) ==
+  IF iters[id].rest = <<>> THEN <<NilV, NilV>>
+  ELSE LET p == Head(iters[id].rest) IN <<inst.ks[inst.R[p]], ScanVal(inst, iters[id].wv, p)>>
+IterNext(id) ==
+  /\ HasIter(id)
+  /\ iters' = [iters EXCEPT ![id].rest = IF @ = <<>> THEN <<>> ELSE Tail(@)]
 =============================================================================
